@@ -452,3 +452,31 @@ func RaceResult(res Result, id string, rep string) Result {
 	res.Inconclusive = "race report without a psql-wire frame (harness race?): " + rep[:min(len(rep), 600)]
 	return res
 }
+
+// FuzzProp turns a rapid generator + check into a native fuzz target: the fuzzer's bytes are
+// the generator's source of randomness (rapid.MakeFuzz), so coverage guidance steers the same
+// structured cases the property test draws at random. Used by the thorough tier only.
+func FuzzProp[C any](f *testing.F, sub string, gen func(*rapid.T) C, run func(C) Result) {
+	seed := uint64(0x9E3779B97F4A7C15)
+	for i := 0; i < 8; i++ {
+		b := make([]byte, 2048<<uint(i%5)) // 8 bytes per draw: enough for whole cases
+		for j := range b {
+			seed ^= seed << 13
+			seed ^= seed >> 7
+			seed ^= seed << 17
+			b[j] = byte(seed)
+		}
+		f.Add(b)
+	}
+	f.Fuzz(rapid.MakeFuzz(func(t *rapid.T) {
+		c := gen(t)
+		res := run(c)
+		if tolerate(sub, res) {
+			return
+		}
+		if res.Violation != "" {
+			path := writeReplay(sub, c, res)
+			t.Fatalf("VERIF-VIOLATION property=%s sub=%s sig=%s replay=%s\nVERIF-DETAIL %s", S.ID, sub, res.Sig, path, res.Violation)
+		}
+	}))
+}
